@@ -30,12 +30,13 @@ func isPromiseCtor(fn *types.Func) bool {
 var completions = map[string]bool{"Success": true, "Failure": true, "Complete": true}
 
 type completeCtx struct {
-	c    *core.Ctx
-	fb   *fnBody
-	info *types.Info
-	np   types.Object
-	memo map[*ast.FuncLit]bool
-	why  string
+	c     *core.Ctx
+	fb    *fnBody
+	info  *types.Info
+	np    types.Object
+	memo  map[*ast.FuncLit]bool
+	why   string
+	depth int
 }
 
 // findLit unwraps conversions like fp.RunnableFunc(func(){...}).
@@ -58,6 +59,22 @@ func (cx *completeCtx) completingCall(call *ast.CallExpr) bool {
 	}
 	if objOf(cx.info, sel.X) == cx.np && completions[sel.Sel.Name] {
 		return true
+	}
+	// np.helper(…): a module method of Promise every path of which completes its receiver (or registers a literal that
+	// does) — e.g. `func (r Promise[T]) completeWith(f Future[T]) { f.OnComplete(func(t Try[T]) { r.Complete(t) }) }`
+	if objOf(cx.info, sel.X) == cx.np && !completions[sel.Sel.Name] && cx.depth < 3 {
+		if m, ok := cx.info.Uses[sel.Sel].(*types.Func); ok && m.Pkg() != nil && strings.HasPrefix(m.Pkg().Path(), core.ModPath) {
+			if fd := cx.c.FuncDecl(m.Origin()); fd != nil && fd.Body != nil && fd.Recv != nil && len(fd.Recv.List) == 1 && len(fd.Recv.List[0].Names) == 1 {
+				if hp := cx.c.ByPath[m.Pkg().Path()]; hp != nil {
+					if recv := hp.TypesInfo.Defs[fd.Recv.List[0].Names[0]]; recv != nil && isNamed(recv.Type(), "fp", "Promise") {
+						sub := &completeCtx{c: cx.c, info: hp.TypesInfo, np: recv, memo: map[*ast.FuncLit]bool{}, depth: cx.depth + 1}
+						if sub.bodyCompletes(fd.Body) {
+							return true
+						}
+					}
+				}
+			}
+		}
 	}
 	switch sel.Sel.Name {
 	case "OnComplete":
